@@ -18,41 +18,54 @@ package validator
 //@   ensures [C11:nil] eventChan == nil ==> chanClosed == old(chanClosed)
 
 //@ func GenerateRego(profileText string, debug bool, eventChan *chan e.Event) (*generator.RegoUnit, error)
+//@   ensures [C08:no-compile] opaRejected == old(opaRejected) && opaEvaluated == old(opaEvaluated)
 //@   requires [C11:fresh] eventChan != nil ==> (chanClosed == 0 && !evOpen && evNext == 0)
 //@   ensures [C11:stages] eventChan != nil ==> (chanClosed == old(chanClosed) && !evOpen && (result1 == nil ==> evNext == 2) && (result1 != nil ==> evNext == 1))
 //@   ensures-assumed [C18:lib-function] result1 == libRegoErr(profileText) && (result1 == nil ==> result0 != nil && deref(result0).Code == libRegoCode(profileText)) && stdout == old(stdout)
 
 //@ func CompileRego(regoUnit *generator.RegoUnit, eventChan *chan e.Event) (*rego.PreparedEvalQuery, error)
+//@   requires [C08:not-yet] !opaRejected
+//@   ensures [C08:rejection-is-an-error] opaRejected ==> result1 != nil
+//@   ensures [C08:no-evaluation] opaEvaluated == old(opaEvaluated)
 //@   requires [C11:after-generation] eventChan != nil ==> (chanClosed == 0 && !evOpen && evNext == 2)
 //@   ensures [C11:stages] eventChan != nil ==> (chanClosed == old(chanClosed) && !evOpen && evNext == 3)
 
 //@ func ProcessProfile(profileText string, debug bool, eventChan *chan e.Event) (*rego.PreparedEvalQuery, error)
+//@   requires [C08:not-yet] !opaRejected
+//@   ensures [C08:rejection-is-an-error] opaRejected ==> result1 != nil
+//@   ensures [C08:no-evaluation] opaEvaluated == old(opaEvaluated)
 //@   requires [C11:fresh] eventChan != nil ==> (chanClosed == 0 && !evOpen && evNext == 0)
 //@   ensures [C11:stages] eventChan != nil ==> (chanClosed == old(chanClosed) && (result1 == nil ==> !evOpen && evNext == 3))
 //@   ensures-assumed [C09:A-OPA5] result1 == compileErr(profileText) && (result1 == nil ==> result0 != nil && deref(result0) == compiledQuery(profileText))
 
 //@ func ProcessInput(jsonldText string, debug bool, receiver *chan e.Event) (any, error)
+//@   ensures [C08:no-opa] opaRejected == old(opaRejected) && opaEvaluated == old(opaEvaluated)
 //@   requires [C11:compiled] receiver != nil ==> (chanClosed == 0 && !evOpen && evNext == 3)
 //@   ensures [C11:stages] receiver != nil ==> (chanClosed == old(chanClosed) && (result1 == nil ==> !evOpen && evNext == 5))
 //@   ensures [C04:decode] !jsonTextValid(jsonldText) ==> result1 != nil
 //@   ensures-assumed [C18:lib-function] result0 == libNormalized(jsonldText) && result1 == libNormalizedErr(jsonldText) && stdout == old(stdout)
 
 //@ func executeValidation(eventChan *chan e.Event, err error, compiledRego rego.PreparedEvalQuery, normalizedInput any) (*rego.ResultSet, error)
+//@   ensures [C08:no-compile] opaRejected == old(opaRejected)
 //@   requires [C11:normalized] eventChan != nil ==> (chanClosed == 0 && !evOpen && evNext == 5)
 //@   ensures [C11:stages] eventChan != nil ==> (chanClosed == old(chanClosed) && !evOpen && evNext == 6)
 //@   ensures [C17:nonnil] result0 != nil
 
 //@ func processResult(result *rego.ResultSet, eventChan *chan e.Event, validationConfig c.ValidationConfiguration, reportConfig c.ReportConfiguration) (string, error)
+//@   ensures [C08:no-opa] opaRejected == old(opaRejected)
 //@   requires [C11:evaluated] eventChan != nil ==> (chanClosed == 0 && !evOpen && evNext == 6)
 //@   ensures [C11:stages] eventChan != nil ==> (chanClosed == old(chanClosed) && !evOpen && evNext == 7)
 
 //@ func ValidateCompiledWithConfiguration(compiledRegoPtr *rego.PreparedEvalQuery, jsonldText string, debug bool, eventChan *chan e.Event, validationConfig c.ValidationConfiguration, reportConfig c.ReportConfiguration) (string, error)
+//@   ensures [C08:no-compile] opaRejected == old(opaRejected)
 //@   requires [C11:compiled] eventChan != nil ==> (chanClosed == 0 && !evOpen && evNext == 3)
 //@   ensures [C11:closed-once] eventChan != nil ==> chanClosed == old(chanClosed) + 1
 //@   ensures [C04:no-verdict] !jsonTextValid(jsonldText) ==> (result1 != nil && result0 == "")
 //@   ensures-assumed [C09:function-of-inputs] compiledRegoPtr != nil ==> (result0 == libCompiledReport(deref(compiledRegoPtr), jsonldText, validationConfig, reportConfig) && result1 == libCompiledReportErr(deref(compiledRegoPtr), jsonldText, validationConfig, reportConfig))
 
 //@ func ValidateWithConfiguration(profileText string, jsonldText string, debug bool, eventChan *chan e.Event, validationConfig c.ValidationConfiguration, reportConfig c.ReportConfiguration) (string, error)
+//@   requires [C08:not-yet] !opaRejected && !opaEvaluated
+//@   ensures [C08:nothing-evaluated] opaRejected ==> (result1 != nil && result0 == "" && !opaEvaluated)
 //@   requires [C11:fresh] eventChan != nil ==> (chanClosed == 0 && !evOpen && evNext == 0)
 //@   ensures [C11:closed-once] eventChan != nil ==> chanClosed == old(chanClosed) + 1
 //@   ensures [C04:no-verdict] !jsonTextValid(jsonldText) ==> (result1 != nil && result0 == "")
@@ -61,6 +74,8 @@ package validator
 //@   ensures [C09:compile-error-no-report] compileErr(profileText) != nil ==> (result1 != nil && result0 == "")
 
 //@ func Validate(profileText string, jsonldText string, debug bool, eventChan *chan e.Event) (string, error)
+//@   requires [C08:not-yet] !opaRejected && !opaEvaluated
+//@   ensures [C08:nothing-evaluated] opaRejected ==> (result1 != nil && result0 == "" && !opaEvaluated)
 //@   requires [C11:fresh] eventChan != nil ==> (chanClosed == 0 && !evOpen && evNext == 0)
 //@   ensures [C11:closed-once] eventChan != nil ==> chanClosed == old(chanClosed) + 1
 //@   ensures [C04:no-verdict] !jsonTextValid(jsonldText) ==> (result1 != nil && result0 == "")
